@@ -238,6 +238,36 @@ func c17Key(r *mon.Run, rng *rand.Rand, bits, nb, nLeaves, keyNo int) {
 	}
 	r.Set("proof_json_bytes", len(doc))
 
+	// (a') the same structure object serves a second proof (another proof group: BuildProof draws its own group prime):
+	// a verifier checks many issuers' proofs for one key description, a prover may prove again
+	{
+		var proof2 keyproof.ValidKeyProof
+		inflight("second proof built by the same structure object, " + desc)
+		pv, _ := mon.Try(func() { proof2 = s.BuildProof(pp, qp) })
+		inflight("")
+		if pv != nil {
+			r.Violation("C17/build-proof-panics", fmt.Sprintf("BuildProof panicked on its second use: %v (%s)", pv, desc), keyRep)
+			return
+		}
+		r.Set("second_proof_same_group", proof2.GroupPrime != nil && proof.GroupPrime != nil && proof2.GroupPrime.Cmp(proof.GroupPrime) == 0)
+		fresh := keyproof.NewValidKeyProofStructure(n, bases)
+		inflight("second proof verified by a fresh structure, " + desc)
+		okFresh, _ := verify(fresh, proof2)
+		inflight("second proof verified by the structure that built it, " + desc)
+		okSame, _ := verify(s, proof2)
+		inflight("first proof verified again by the same structure, " + desc)
+		okFirst, _ := verify(s, rt)
+		inflight("")
+		r.Eval("complete", outcome(okFresh, nil))
+		r.Eval("complete", outcome(okSame, nil))
+		r.Eval("complete", outcome(okFirst, nil))
+		r.Distinct("complete-reuse", desc)
+		if !okFresh || !okSame || !okFirst {
+			r.Violation("C17/valid-key-proof-rejected/structure-reused", fmt.Sprintf("with one structure object used for two proofs of the same good key: second proof verified by a fresh structure=%v, by the same structure=%v, first proof again=%v (%s)", okFresh, okSame, okFirst, desc), keyRep)
+			return
+		}
+	}
+
 	// (b) binding to modulus and base list
 	bind := func(name string, n2 *big.Int, b2 []*big.Int) {
 		st := keyproof.NewValidKeyProofStructure(n2, b2)
